@@ -82,7 +82,15 @@ def generic_shape(fi, side, S=None):
         raise AnalysisError('generic codec %s: expected one path, found %d'
                             % (fi.qualname, len(paths)), fi.node,
                             rel(fi.path))
-    top = [e for e in paths[0].events if e.kind in ('loop', 'call', 'store')]
+    def only_items(e):
+        """a comprehension whose only calls are <entry>.items()"""
+        import ast as _ast
+        return e.kind == 'loop' and isinstance(e.node, (
+            _ast.GeneratorExp, _ast.ListComp)) and all(
+                x.kind == 'call' and x.fn[2:3] == ('items',)
+                for q in e.paths for x in q.events)
+    top = [e for e in paths[0].events if e.kind in ('loop', 'call', 'store')
+           and not only_items(e)]
     if len(top) != 1 or top[0].kind != 'loop':
         raise AnalysisError('generic codec %s: expected one loop over the '
                             'definition' % fi.qualname, fi.node, rel(fi.path))
@@ -91,21 +99,65 @@ def generic_shape(fi, side, S=None):
         raise AnalysisError('generic codec %s: the loop over the definition '
                             'branches' % fi.qualname, outer.node,
                             rel(fi.path))
-    inner = [e for e in outer.paths[0].events if e.kind == 'loop']
-    others = [e for e in outer.paths[0].events if e.kind in ('store',)
-              or (e.kind == 'call' and e.fn[2:3] != ('items',))]
-    if len(inner) != 1 or others:
-        raise AnalysisError('generic codec %s: expected a nested loop over '
-                            'field.items()' % fi.qualname, outer.node,
-                            rel(fi.path))
-    inner = inner[0]
-    it = inner.ctx
-    if not (it[0] == 'call' and it[1][0] == 'attr' and it[1][2] == 'items'
-            and it[1][1][0] == 'elem'
-            and struct(it[1][1][1]) == struct(outer.ctx) and not it[2]):
-        raise AnalysisError('generic codec %s: inner loop is not over '
-                            '<field>.items()' % fi.qualname, inner.node,
-                            rel(fi.path))
+    definition = ('attr', me, 'definition')
+
+    def items_of(t, el_of):
+        """t is <x>.items() for x an element of `el_of`"""
+        return (t[0] == 'call' and t[1][0] == 'attr' and t[1][2] == 'items'
+                and t[1][1][0] == 'elem'
+                and struct(t[1][1][1]) == struct(el_of) and not t[2])
+
+    def flattened(t):
+        """the pairs of every entry, in order, as one lazy sequence:
+        ((k, T) for f in D for k, T in f.items())  or
+        chain.from_iterable(f.items() for f in D)"""
+        while t[0] == 'op' and t[1] in ('iter', 'tuple', 'list') and \
+                len(t[2]) == 1:
+            t = t[2][0]
+        if t[0] == 'op' and t[1] in ('genexp', 'listcomp') and \
+                len(t[2][0][1]) == 2 and not t[2][2][1] and \
+                len(t[2][1][1]) == 1:
+            d, inner_it = t[2][0][1]
+            val = t[2][1][1][0][1][0]
+            if struct(d) == definition and items_of(inner_it, d) and \
+                    val[0] == 'tuple' and len(val[1]) == 2 and all(
+                        x[0] == 'op' and x[1] == 'index'
+                        and x[2][0][0] == 'elem'
+                        and struct(x[2][0][1]) == struct(inner_it)
+                        and x[2][1] == ('const', i)
+                        for i, x in enumerate(val[1])):
+                return True
+        if t[0] == 'op' and t[1] == 'chain.from_iterable' and \
+                len(t[2]) == 1:
+            g = t[2][0]
+            if g[0] == 'op' and g[1] in ('genexp', 'listcomp') and \
+                    len(g[2][0][1]) == 1 and not g[2][2][1] and \
+                    len(g[2][1][1]) == 1:
+                d = g[2][0][1][0]
+                val = g[2][1][1][0][1][0]
+                if struct(d) == definition and items_of(val, d):
+                    return True
+        return False
+    if flattened(outer.ctx):
+        inner = outer
+        it = outer.ctx
+        shape = 'for k, T in <the items of every entry of self.definition>'
+    else:
+        inner = [e for e in outer.paths[0].events if e.kind == 'loop']
+        others = [e for e in outer.paths[0].events if e.kind in ('store',)
+                  or (e.kind == 'call' and e.fn[2:3] != ('items',))]
+        if len(inner) != 1 or others or struct(outer.ctx) != definition:
+            raise AnalysisError('generic codec %s: expected a nested loop '
+                                'over field.items()' % fi.qualname,
+                                outer.node, rel(fi.path))
+        inner = inner[0]
+        it = inner.ctx
+        if not items_of(it, outer.ctx):
+            raise AnalysisError('generic codec %s: inner loop is not over '
+                                '<field>.items()' % fi.qualname, inner.node,
+                                rel(fi.path))
+        shape = 'for field in %s: for k, T in field.items()' % show(
+            outer.ctx)
     if len(inner.paths) != 1:
         return 'the per-field step branches'
     q = inner.paths[0]
@@ -154,8 +206,7 @@ def generic_shape(fi, side, S=None):
                     'getattr(self, k), buffer, self.context)' % w)
         summary = 'T.send_with_context(getattr(self, k), buffer, ' \
             'self.context) per item'
-    return dict(iter='for field in %s: for k, T in field.items()'
-                % show(outer.ctx), summary=summary)
+    return dict(iter=shape, summary=summary)
 
 
 def r2(report, db, P, classes, versions):
